@@ -5,9 +5,9 @@ import SaramaVerif.Model.DecoderFmt
   push-decoders, of decode/versionedDecode and of responseHeader.decode, regenerated from /repo on this run
   (Gen.C10.*), computes what the hand-written model (Model/Decoder.lean) computes.  Go values that the translator
   cannot see (the bytes read, the error values, slices) are parameters; errors are opaque values.
-  The obligations are stated for the PINNED variant of the model: when a missing guard is added to /repo the
-  regenerated definition changes and the corresponding obligation no longer elaborates – the harness then observes
-  the `checked` behaviour and the model variant on the op lines switches (see known_findings.d/C10.json).
+  The obligations are stated for the variant of the model that /repo has now: the repaired (`checked`) getters.
+  When a guard is removed again the regenerated definition changes and the obligation no longer proves; the harness
+  then observes the `pinned` behaviour and reports the crash with a concrete input.
 -/
 namespace Bridge.C10
 open Go Model.Decoder
@@ -54,25 +54,40 @@ theorem getInt64_eq (raw : Bytes) (off : Nat) (hlen : raw.length ≤ 4294967296)
   · rfl
   · simp only []; rw [show (8 : Int) = ((8 : Nat) : Int) from rfl, add64_nat off 8 (by omega)]
 
-/-- getArrayLength after the read, as the source has it now = the pinned model: there is NO lower bound on tmp -/
+/-- getArrayLength after the read, as the source has it now = the checked model: lengths below -1 are rejected -/
 theorem arrayLengthTail_eq (tmp : Int) (len off : Nat) (eI eA nilE : Int) :
     Gen.C10.arrayLengthTail tmp ((len : Int) - off) off len 131070 eI eA nilE
-      = triple (-1) nilE (fun e => if e = .insufficient then eI else eA) (arrayLengthTail .pinned tmp len off) := by
+      = triple (-1) nilE (fun e => if e = .insufficient then eI else eA) (arrayLengthTail .checked tmp len off) := by
   unfold Gen.C10.arrayLengthTail arrayLengthTail triple
   split
   · simp only [↓reduceIte]
-  · split
-    · simp only [reduceCtorEq, ↓reduceIte]
-    · simp only [reduceCtorEq, false_and, ↓reduceIte]
+  · by_cases h1 : tmp > 131070
+    · simp only [h1, true_or, ↓reduceIte, reduceCtorEq]
+    · by_cases h2 : tmp < -1
+      · simp only [h1, h2, or_true, and_self, ↓reduceIte, reduceCtorEq]
+      · simp only [h1, h2, or_self, and_false, ↓reduceIte]
 
-/-- `int(n) - 1` of getCompactArrayLength: no comparison with remaining() in the source -/
-theorem compactArrayLengthTail_eq (n : Nat) (hn : n < 18446744073709551616) (nilE : Int) :
-    Gen.C10.compactArrayLengthTail (wrap64 n) nilE = ((if n = 0 then 0 else compactLen n), nilE) := by
-  unfold Gen.C10.compactArrayLengthTail compactLen sub64
+/-- the function getCompactArrayLength applies to the uvarint it read (checked model) -/
+def compactArrayLengthModel (raw : Bytes) (n : Nat) (off1 : Nat) : Res Int :=
+  if n = 0 then .ok 0 off1 0
+  else if Variant.checked = .checked ∧ (compactLen n < 0 ∨ compactLen n > rem raw off1) then .err .insufficient raw.length 0
+  else .ok (compactLen n) off1 0
+
+theorem compactArrayLengthModel_is_model (raw : Bytes) (off : Nat) :
+    getCompactArrayLength .checked raw off = (getUVarint raw off).bind (compactArrayLengthModel raw) := rfl
+
+/-- getCompactArrayLength after the uvarint, as the source has it now: `int(n) - 1` must be within [0, remaining()] -/
+theorem compactArrayLengthTail_eq (raw : Bytes) (n : Nat) (hn : n < 18446744073709551616) (off1 : Nat) (eI nilE : Int) :
+    Gen.C10.compactArrayLengthTail (wrap64 n) (rem raw off1) off1 raw.length eI nilE
+      = triple 0 nilE (fun _ => eI) (compactArrayLengthModel raw n off1) := by
+  unfold Gen.C10.compactArrayLengthTail compactArrayLengthModel triple
+  have hs : sub64 (wrap64 (n : Int)) 1 = compactLen n := rfl
+  rw [hs]
   by_cases h : n = 0
   · subst h; simp [wrap64]
   · have h2 : ¬ wrap64 (n : Int) = 0 := by unfold wrap64; omega
-    simp only [h2, ↓reduceIte, h]
+    simp only [h2, ↓reduceIte, h, true_and]
+    split <;> rfl
 
 theorem getBoolTail_eq (b : Int) (nilE eB : Int) :
     Gen.C10.getBoolTail b nilE nilE eB = (if b = 0 then (false, nilE) else if b ≠ 1 then (false, eB) else (true, nilE)) := by
@@ -149,19 +164,73 @@ theorem lengthFieldCheck_eq (v : Variant) (crcf : Bool → Bytes → Nat) (raw :
   simp only []
   split <;> rfl
 
-/-- varintLengthField.check = `pop` of a varint length frame in the PINNED variant: the size subtracted is
-    `reserveLength()` = the size of the canonical encoding of the stored value, not the bytes read -/
-theorem varintLengthFieldCheck_eq (crcf : Bool → Bytes → Nat) (raw : Bytes) (start cur fl : Nat) (stored eLF nilE : Int) :
-    Gen.C10.varintLengthFieldCheck cur start stored (varintSize stored) eLF nilE
-      = match pop .pinned crcf raw (.varintLength start stored fl) cur with
+/-- varintLengthField.check = `pop` of a varint length frame in the CHECKED variant: the size subtracted is the
+    number of bytes the varint occupies in the buffer (`binary.Varint(buf[l.startOffset:])`), not reserveLength() -/
+theorem varintLengthFieldCheck_eq (crcf : Bool → Bytes → Nat) (raw : Bytes) (start cur fl : Nat) (stored eLF nilE : Int)
+    (hfl : 0 < fl) :
+    Gen.C10.varintLengthFieldCheck cur start stored eLF nilE fl
+      = match pop .checked crcf raw (.varintLength start stored fl) cur with
         | .ok _ _ _ => nilE
         | _ => eLF := by
   unfold Gen.C10.varintLengthFieldCheck pop
-  have : sub64 (sub64 (cur : Int) start) (varintSize stored) = wrap64 ((cur : Int) - start - (varintSize stored : Int)) := by
+  have : sub64 (sub64 (cur : Int) start) (fl : Int) = wrap64 ((cur : Int) - start - (fl : Int)) := by
     unfold sub64 wrap64; omega
   rw [this]
-  simp only [reduceCtorEq, ↓reduceIte]
+  have hpos : ¬ ((fl : Int) ≤ 0) := by omega
+  simp only [hpos, false_or, ↓reduceIte]
   split <;> rfl
+
+/-- getCompactString after the uvarint, as the source has it now: negative length → errInvalidStringLength,
+    length > remaining() → ErrInsufficientData, otherwise the copy of `length` bytes -/
+theorem compactStringTail_eq (raw : Bytes) (n : Nat) (off1 : Nat) (h : off1 ≤ raw.length) (hlen : raw.length ≤ 4294967296)
+    (eS strV eInv eI nilE : Int) :
+    Gen.C10.compactStringTail (wrap64 n) (rem raw off1) off1 raw.length eS strV eInv eI nilE
+      = match (if Variant.checked = .checked ∧ compactLen' n < 0 then (Res.err .invalidStringLength off1 0 : Res Bytes)
+               else if Variant.checked = .checked ∧ compactLen' n > rem raw off1 then .err .insufficient raw.length 0
+               else takeString raw off1 (compactLen' n)) with
+        | .ok _ off' _ => (strV, nilE, (off' : Int))
+        | .err e off' _ => (eS, (if e = .insufficient then eI else eInv), (off' : Int))
+        | _ => (0, 0, 0) := by
+  unfold Gen.C10.compactStringTail
+  have hs : sub64 (wrap64 (n : Int)) 1 = compactLen' n := by
+    unfold sub64 compactLen' wrap64; omega
+  rw [hs]
+  generalize compactLen' n = L
+  simp only [true_and]
+  by_cases h1 : L < 0
+  · simp only [h1, ↓reduceIte, reduceCtorEq]
+  · by_cases h2 : L > rem raw off1
+    · simp only [h1, h2, ↓reduceIte]
+    · unfold rem at h2
+      have hc : sliceOK raw off1 (off1 + L) := ⟨by omega, by omega, by omega⟩
+      have ha : add64 (off1 : Int) L = ((off1 + L.toNat : Nat) : Int) := by unfold add64 wrap64; omega
+      simp only [h1, rem, h2, ↓reduceIte, takeString, hc, ha]
+
+/-- getCompactNullableString after the uvarint -/
+theorem compactNullableStringTail_eq (raw : Bytes) (n : Nat) (off1 : Nat) (h : off1 ≤ raw.length) (hlen : raw.length ≤ 4294967296)
+    (strV ptr eI nilV : Int) :
+    Gen.C10.compactNullableStringTail (wrap64 n) (rem raw off1) off1 raw.length nilV strV ptr eI nilV
+      = match (if compactLen' n < 0 then (Res.ok none off1 0 : Res (Option Bytes))
+               else if Variant.checked = .checked ∧ compactLen' n > rem raw off1 then .err .insufficient raw.length 0
+               else (takeString raw off1 (compactLen' n)).map some) with
+        | .ok none off' _ => (nilV, nilV, (off' : Int))
+        | .ok (some _) off' _ => (ptr, nilV, (off' : Int))
+        | .err _ off' _ => (nilV, eI, (off' : Int))
+        | _ => (0, 0, 0) := by
+  unfold Gen.C10.compactNullableStringTail
+  have hs : sub64 (wrap64 (n : Int)) 1 = compactLen' n := by
+    unfold sub64 compactLen' wrap64; omega
+  rw [hs]
+  generalize compactLen' n = L
+  simp only [true_and]
+  by_cases h1 : L < 0
+  · simp only [h1, ↓reduceIte]
+  · by_cases h2 : L > rem raw off1
+    · simp only [h1, h2, ↓reduceIte]
+    · unfold rem at h2
+      have hc : sliceOK raw off1 (off1 + L) := ⟨by omega, by omega, by omega⟩
+      have ha : add64 (off1 : Int) L = ((off1 + L.toNat : Nat) : Int) := by unfold add64 wrap64; omega
+      simp only [h1, rem, h2, ↓reduceIte, takeString, hc, ha, Res.map]
 
 /-- the whole-buffer check of decode() and versionedDecode() = `topLevel` -/
 theorem decodeTrailing_eq {α : Type} (v : α) (off len a : Nat) (eLen nilE : Int) :
